@@ -388,25 +388,24 @@ void finish(Plan& p, Rng& r, std::vector<std::vector<Step>>& progs, int abort_pc
 namespace vsim {
 
 Plan plan_C07(Rng& r, const std::string&) {
-	Plan p; p.env = gen::gen_env(r); gen::Pool pool = gen::make_pool(r, 5, 2);
+	Plan p; p.env = gen::gen_env(r); gen::Pool pool = gen::make_pool(r, r.chance(1, 3) ? 7 : 5, 2);
 	int ncl = r.range(1, 3); std::vector<std::vector<Step>> progs;
 	for (int c = 0; c < ncl; ++c) {
-		if (c > 0 && r.chance(2, 3)) { progs.push_back(foreign_bdd(r, c, pool, r.range(2, 8))); continue; }
-		BG g(r, c); int ep = r.range(1, 2);
+		if (c > 0 && r.chance(2, 3)) { progs.push_back(foreign_bdd(r, c, pool, r.range(1, 4))); continue; }
+		BG g(r, c); int ep = r.range(1, 3);
 		for (int e = 0; e < ep; ++e) {
 			TA A, B;
-			if (r.chance(1, 3)) A = gen::wide_pair_smaller(r, B);      // children positions with several macro-states
-			else { gen::TAOpts o; o.max_states = r.range(1, 5); A = gen::gen_ta(r, pool, o); B = r.chance(1, 2) ? gen::derive_ta(r, pool, A, int(r.below(6))) : gen::gen_ta(r, pool, o); }
-			if (r.chance(1, 8)) std::swap(A, B);
+			if (r.chance(1, 4)) A = gen::wide_pair_smaller(r, B);      // children positions with several macro-states
+			else gen::gen_incl_pair(r, pool, r.range(1, 5), false, A, B);
 			// the same pair in both encodings
 			int abu = g.load(A, true), bbu = g.load(B, true), atd = g.load(A, false), btd = g.load(B, false);
 			if (r.chance(1, 4)) g.value_ops(1);
 			if (r.chance(1, 4)) g.out.push_back(gen::mk(c, "churn", {long(r.below(100000)), long(r.range(4, 40))}));
-			int k = r.range(2, 5);
+			int k = r.range(5, 10);
 			for (int i = 0; i < k; ++i) {
-				bool bu = r.chance(1, 2); long sel;
-				if (bu) sel = r.below(100) < 80 ? (r.chance(1, 2) ? 0 : 5) : long(r.below(N_SEL));
-				else sel = r.below(100) < 85 ? 4 + long(r.below(4)) : long(r.below(N_SEL));
+				bool bu = r.chance(2, 5); long sel;
+				if (bu) sel = r.below(100) < 88 ? (r.chance(1, 2) ? 0 : 5) : long(r.below(N_SEL));
+				else sel = r.below(100) < 90 ? 4 + long(r.below(4)) : long(r.below(N_SEL));
 				g.out.push_back(gen::mk(c, "bdd_incl", {bu ? abu : atd, bu ? bbu : btd, sel, bu, long(r.below(2))}));
 			}
 		}
